@@ -502,12 +502,17 @@ func runC07Backend(c *Ctx, ea *engineAnchors) {
 			}
 			checkUses(prm, 0)
 		}
-		s := newSumm(p, 1)
+		// depth 3: the body may be shared through package-private helpers (load / apply); the calls
+		// the rule looks for are outside the table package or excluded, so they stay visible
+		s := newSumm(p, 3)
 		s.EngineAliases = false
 		s.NoInline[fnKey(clone)] = true
 		s.InlineFilter = func(f *ssa.Function) bool { return f.Pkg != nil && shortPkg(f.Pkg.Pkg.Path()) == "table" }
 		paths, _ := s.Function(fn)
 		called := false
+		// the operation may be handed to a shared helper as a function value (a method expression
+		// or a closure): resolve which engine method that value invokes
+		opNames := funcArgEngineMethods(fn)
 		for _, ps := range paths {
 			var eng *Event
 			for _, e := range ps.Events {
@@ -524,6 +529,10 @@ func runC07Backend(c *Ctx, ea *engineAnchors) {
 					name = "Start"
 				}
 				if strings.HasSuffix(e.Callee, ")."+name) && (strings.Contains(e.Callee, "pokerface.") || strings.Contains(e.Callee, "Game")) {
+					eng = e
+					called = true
+				}
+				if strings.HasPrefix(e.Callee, "dynamic:") && len(opNames) == 1 && opNames[0] == name && len(e.Args) >= 1 && strings.Contains(e.Args[0].String(), "NewGameFromState(") {
 					eng = e
 					called = true
 				}
@@ -733,4 +742,46 @@ func runC07Determinism(c *Ctx, ea *engineAnchors, roots []*ssa.Function, R map[*
 	}
 	sort.Strings(mr)
 	c.Notes = append(c.Notes, "map-range sites reachable from operations (order-insensitivity reviewed by hand, not decided): "+strings.Join(mr, "; "))
+}
+
+// funcArgEngineMethods: the interface methods invoked by the function values (method expressions,
+// closures) that fn passes to functions of its own package.
+func funcArgEngineMethods(fn *ssa.Function) []string {
+	set := map[string]bool{}
+	var scan func(f *ssa.Function)
+	scan = func(f *ssa.Function) {
+		if f == nil {
+			return
+		}
+		for _, b := range f.Blocks {
+			for _, in := range b.Instrs {
+				if call, ok := in.(ssa.CallInstruction); ok && call.Common().IsInvoke() {
+					set[call.Common().Method.Name()] = true
+				}
+			}
+		}
+	}
+	for _, b := range fn.Blocks {
+		for _, in := range b.Instrs {
+			call, ok := in.(*ssa.Call)
+			if !ok {
+				continue
+			}
+			callee := call.Common().StaticCallee()
+			if callee == nil || callee.Pkg != fn.Pkg {
+				continue
+			}
+			for _, a := range call.Common().Args {
+				switch x := a.(type) {
+				case *ssa.Function:
+					scan(x)
+				case *ssa.MakeClosure:
+					if f, ok := x.Fn.(*ssa.Function); ok {
+						scan(f)
+					}
+				}
+			}
+		}
+	}
+	return sortedSet(set)
 }
